@@ -85,32 +85,35 @@ theorem message_dispatch_consistent :
 /-- the constants of the source are the constants of the model, and each is dispatched -/
 theorem service_constants_match_model :
     Gen.serviceConsts =
-      [("SearchReqService", SearchReqService.toNat), ("SearchResService", SearchResService.toNat),
-       ("DescrReqService", DescrReqService.toNat), ("DescrResService", DescrResService.toNat),
-       ("ConnReqService", ConnReqService.toNat), ("ConnResService", ConnResService.toNat),
+      [("ConnReqService", ConnReqService.toNat), ("ConnResService", ConnResService.toNat),
        ("ConnStateReqService", ConnStateReqService.toNat),
        ("ConnStateResService", ConnStateResService.toNat),
+       ("DescrReqService", DescrReqService.toNat), ("DescrResService", DescrResService.toNat),
        ("DiscReqService", DiscReqService.toNat), ("DiscResService", DiscResService.toNat),
-       ("TunnelReqService", TunnelReqService.toNat), ("TunnelResService", TunnelResService.toNat),
-       ("RoutingIndService", RoutingIndService.toNat), ("RoutingLostService", RoutingLostService.toNat),
-       ("RoutingBusyService", RoutingBusyService.toNat)] := by decide
+       ("RoutingBusyService", RoutingBusyService.toNat),
+       ("RoutingIndService", RoutingIndService.toNat),
+       ("RoutingLostService", RoutingLostService.toNat),
+       ("SearchReqService", SearchReqService.toNat), ("SearchResService", SearchResService.toNat),
+       ("TunnelReqService", TunnelReqService.toNat), ("TunnelResService", TunnelResService.toNat)] := by decide
 
 theorem message_codes_match_model :
     Gen.messageCodes =
-      [("LBusmonIndCode", LBusmonIndCode.toNat), ("LDataReqCode", LDataReqCode.toNat),
-       ("LDataIndCode", LDataIndCode.toNat), ("LDataConCode", LDataConCode.toNat),
-       ("LRawReqCode", LRawReqCode.toNat), ("LRawIndCode", LRawIndCode.toNat),
-       ("LRawConCode", LRawConCode.toNat)] := by decide
+      [("LBusmonIndCode", LBusmonIndCode.toNat), ("LDataConCode", LDataConCode.toNat),
+       ("LDataIndCode", LDataIndCode.toNat), ("LDataReqCode", LDataReqCode.toNat),
+       ("LRawConCode", LRawConCode.toNat), ("LRawIndCode", LRawIndCode.toNat),
+       ("LRawReqCode", LRawReqCode.toNat)] := by decide
 
+/-- the tables are emitted sorted by name (the order of declarations and of switch arms in the source
+    carries no meaning) -/
 theorem dispatch_tables_match_model :
     Gen.unpackDispatch.map (·.1) =
-      ["SearchReqService", "SearchResService", "DescrReqService", "DescrResService",
-       "ConnReqService", "ConnResService", "ConnStateReqService", "ConnStateResService",
-       "DiscReqService", "DiscResService", "TunnelReqService", "TunnelResService",
-       "RoutingIndService", "RoutingLostService", "RoutingBusyService", "default"] ∧
+      ["ConnReqService", "ConnResService", "ConnStateReqService", "ConnStateResService",
+       "DescrReqService", "DescrResService", "DiscReqService", "DiscResService",
+       "RoutingBusyService", "RoutingIndService", "RoutingLostService", "SearchReqService",
+       "SearchResService", "TunnelReqService", "TunnelResService", "default"] ∧
     Gen.cemiDispatch.map (·.1) =
-      ["LBusmonIndCode", "LDataReqCode", "LDataConCode", "LDataIndCode", "LRawReqCode",
-       "LRawConCode", "LRawIndCode", "default"] := by decide
+      ["LBusmonIndCode", "LDataConCode", "LDataIndCode", "LDataReqCode", "LRawConCode",
+       "LRawIndCode", "LRawReqCode", "default"] := by decide
 
 /-! non-vacuity -/
 example : (Service.tunnelReq 7 3 (.ldataInd (LData.mk [] 0xbc 0xe0 0x1101 0x0902
